@@ -1202,3 +1202,212 @@ Proof.
       clear Hc Hl. induction fs as [|f fs IHl]; [exact I|].
       inversion IH; subst. inversion He; subst. inversion Hc'; subst. split; [auto|now apply IHl].
 Qed.
+
+(* ================= Part 6: the fuel of the signature resolution is enough ================= *)
+Fixpoint tsize (t : ty) : nat :=
+  match t with
+  | TS _ => 1
+  | TList e => S (tsize e)
+  | TMap k v => S (tsize k + tsize v)
+  | TTuple ts => S (fold_right (fun t a => tsize t + a) 0 ts)
+  | TStruct _ fs => S (fold_right (fun f a => tsize (snd f) + a) 0 fs)
+  end.
+
+(* nesting of structs *)
+Fixpoint sdepth (t : ty) : nat :=
+  match t with
+  | TS _ => 0
+  | TList e => sdepth e
+  | TMap k v => Nat.max (sdepth k) (sdepth v)
+  | TTuple ts => fold_right (fun t a => Nat.max (sdepth t) a) 0 ts
+  | TStruct _ fs => S (fold_right (fun f a => Nat.max (sdepth (snd f)) a) 0 fs)
+  end.
+
+Definition snames (t : ty) : list string := map fst (structs_of t).
+
+Lemma struct_inside_size t : forall n fs, In (n, fs) (structs_of t) -> tsize (TStruct n fs) <= tsize t.
+Proof.
+  induction t as [s|t IHt|k v IHk IHv|ts IH|m gs IH] using ty_ind2; intros n fs Hin; cbn [structs_of] in Hin.
+  - destruct Hin.
+  - specialize (IHt n fs Hin). cbn [tsize] in *. lia.
+  - apply in_app_or in Hin as [Hin|Hin]; [specialize (IHk n fs Hin)|specialize (IHv n fs Hin)]; cbn [tsize] in *; lia.
+  - apply in_flat_map in Hin as (t & Ht & Hin). rewrite Forall_forall in IH. specialize (IH t Ht n fs Hin).
+    assert (tsize t <= fold_right (fun t a => tsize t + a) 0 ts).
+    { clear -Ht. induction ts as [|u ts IHl]; [destruct Ht|]. cbn. destruct Ht as [->|Ht]; [lia|]. specialize (IHl Ht). lia. }
+    cbn [tsize] in *. lia.
+  - destruct Hin as [Heq|Hin]; [inversion Heq; subst; lia|].
+    apply in_flat_map in Hin as (f & Hf & Hin). rewrite Forall_forall in IH. specialize (IH f Hf n fs Hin).
+    assert (tsize (snd f) <= fold_right (fun f a => tsize (snd f) + a) 0 gs).
+    { clear -Hf. induction gs as [|u gs IHl]; [destruct Hf|]. cbn. destruct Hf as [->|Hf]; [lia|]. specialize (IHl Hf). lia. }
+    cbn [tsize] in *. lia.
+Qed.
+
+(* a struct does not contain a struct of its own name *)
+Lemma struct_name_fresh E n fs : env_ok E (TStruct n fs) ->
+  ~ In n (flat_map (fun f => snames (snd f)) fs).
+Proof.
+  intros He Hin. apply env_ok_struct in He as [Hl He].
+  apply in_flat_map in Hin as (f & Hf & Hin). unfold snames in Hin. apply in_map_iff in Hin as ([n' fs'] & En & Hin).
+  cbn in En. subst n'. rewrite Forall_forall in He. pose proof (He f Hf) as Hef. unfold env_ok in Hef.
+  rewrite Forall_forall in Hef. specialize (Hef _ Hin). cbn in Hef. rewrite Hl in Hef. inversion Hef; subst fs'.
+  pose proof (struct_inside_size (snd f) n fs Hin) as Hs.
+  assert (tsize (snd f) <= fold_right (fun f a => tsize (snd f) + a) 0 fs).
+  { clear -Hf. induction fs as [|u gs IHl]; [destruct Hf|]. cbn. destruct Hf as [->|Hf]; [lia|]. specialize (IHl Hf). lia. }
+  cbn [tsize] in Hs. lia.
+Qed.
+
+Lemma nodup_len_incl (l1 l2 : list string) : incl l1 l2 ->
+  List.length (nodup string_dec l1) <= List.length (nodup string_dec l2).
+Proof.
+  intro H. apply NoDup_incl_length; [apply NoDup_nodup|].
+  intros x Hx. apply nodup_In. apply H. now apply nodup_In in Hx.
+Qed.
+
+Lemma max_fold_le {A} (g h : A -> nat) (l : list A) b :
+  (forall x, In x l -> g x <= b) -> fold_right (fun x a => Nat.max (g x) a) 0 l <= b.
+Proof. induction l as [|x l IH]; intro H; cbn; [lia|]. pose proof (H x (or_introl eq_refl)). specialize (IH (fun y Hy => H y (or_intror Hy))). lia. Qed.
+
+(* the nesting of structs is at most the number of distinct struct names *)
+Lemma sdepth_names E t : env_ok E t -> sdepth t <= List.length (nodup string_dec (snames t)).
+Proof.
+  induction t as [s|t IHt|k v IHk IHv|ts IH|n fs IH] using ty_ind2; intro He.
+  - cbn. lia.
+  - now apply IHt.
+  - unfold env_ok in He. cbn [structs_of] in He. rewrite Forall_app in He. destruct He as [Hek Hev].
+    cbn [sdepth]. unfold snames. cbn [structs_of]. rewrite map_app. fold (snames k) (snames v).
+    pose proof (nodup_len_incl (snames k) (snames k ++ snames v) ltac:(intros x Hx; apply in_or_app; now left)).
+    pose proof (nodup_len_incl (snames v) (snames k ++ snames v) ltac:(intros x Hx; apply in_or_app; now right)).
+    specialize (IHk Hek). specialize (IHv Hev). lia.
+  - apply env_ok_list in He. cbn [sdepth]. apply max_fold_le; [exact (fun _ => 0)|]. intros t Ht.
+    rewrite Forall_forall in IH, He. specialize (IH t Ht (He t Ht)).
+    etransitivity; [exact IH|]. apply nodup_len_incl. intros x Hx. unfold snames in *. cbn [structs_of].
+    apply in_map_iff in Hx as (d & <- & Hd). apply in_map. apply in_flat_map. eauto.
+  - pose proof (struct_name_fresh E n fs He) as Hfresh. apply env_ok_struct in He as [Hl He].
+    cbn [sdepth]. unfold snames at 1. cbn [structs_of map fst].
+    rewrite flat_map_concat_map, concat_map, map_map, <- flat_map_concat_map.
+    change (flat_map (fun f => map fst (structs_of (snd f))) fs) with (flat_map (fun f => snames (snd f)) fs).
+    cbn [nodup]. destruct (in_dec string_dec n (flat_map (fun f => snames (snd f)) fs)) as [Hin|_]; [contradiction|].
+    cbn [List.length]. apply le_n_S. apply max_fold_le; [exact (fun _ => 0)|]. intros f Hf.
+    rewrite Forall_forall in IH, He. specialize (IH f Hf (He f Hf)). etransitivity; [exact IH|].
+    apply nodup_len_incl. intros x Hx. apply in_flat_map. eauto.
+Qed.
+
+(* depth through the structs: bounded by the expression's own nesting plus, per struct level,
+   the nesting of member expressions *)
+Lemma ty_depth_bound M t :
+  Forall (fun d => Forall (fun p => idl_depth (snd p) <= M) (snd d)) (structs_of t) ->
+  ty_depth t <= idl_depth t + sdepth t * (S M).
+Proof.
+  induction t as [s|t IHt|k v IHk IHv|ts IH|n fs IH] using ty_ind2; intro H.
+  - cbn. lia.
+  - specialize (IHt H). cbn [ty_depth idl_depth sdepth] in *. lia.
+  - cbn [structs_of] in H. rewrite Forall_app in H. destruct H as [Hk Hv].
+    specialize (IHk Hk). specialize (IHv Hv). cbn [ty_depth idl_depth sdepth] in *.
+    pose proof (Nat.mul_le_mono_r _ _ (S M) (Nat.le_max_l (sdepth k) (sdepth v))).
+    pose proof (Nat.mul_le_mono_r _ _ (S M) (Nat.le_max_r (sdepth k) (sdepth v))). lia.
+  - cbn [ty_depth idl_depth sdepth structs_of] in *.
+    set (A := fold_right (fun t a => Nat.max (idl_depth t) a) 0 ts).
+    set (B := fold_right (fun t a => Nat.max (sdepth t) a) 0 ts).
+    enough (fold_right (fun t a => Nat.max (ty_depth t) a) 0 ts <= A + B * S M) by lia.
+    apply max_fold_le; [exact (fun _ => 0)|]. intros t Ht.
+    rewrite Forall_forall in IH. assert (Ht' : Forall (fun d => Forall (fun p => idl_depth (snd p) <= M) (snd d)) (structs_of t)).
+    { apply Forall_forall. intros d Hd. rewrite Forall_forall in H. apply H. apply in_flat_map. eauto. }
+    specialize (IH t Ht Ht').
+    assert (idl_depth t <= A) by (subst A; clear -Ht; induction ts as [|u ts IHl]; [destruct Ht|]; cbn; destruct Ht as [->|Ht]; [lia|]; specialize (IHl Ht); lia).
+    assert (HB : sdepth t <= B) by (subst B; clear -Ht; induction ts as [|u ts IHl]; [destruct Ht|]; cbn; destruct Ht as [->|Ht]; [lia|]; specialize (IHl Ht); lia).
+    pose proof (Nat.mul_le_mono_r _ _ (S M) HB). lia.
+  - cbn [ty_depth idl_depth sdepth structs_of] in *. inversion H as [|? ? Hfs H']; subst. cbn [snd] in Hfs.
+    set (B := fold_right (fun f a => Nat.max (sdepth (snd f)) a) 0 fs).
+    enough (fold_right (fun f a => Nat.max (ty_depth (snd f)) a) 0 fs <= M + B * S M) by lia.
+    apply max_fold_le; [exact (fun _ => 0)|]. intros f Hf.
+    rewrite Forall_forall in IH. assert (Hf' : Forall (fun d => Forall (fun p => idl_depth (snd p) <= M) (snd d)) (structs_of (snd f))).
+    { apply Forall_forall. intros d Hd. rewrite Forall_forall in H'. apply H'. apply in_flat_map. eauto. }
+    specialize (IH f Hf Hf'). rewrite Forall_forall in Hfs. specialize (Hfs f Hf).
+    assert (HB : sdepth (snd f) <= B) by (subst B; clear -Hf; induction fs as [|u gs IHl]; [destruct Hf|]; cbn; destruct Hf as [->|Hf]; [lia|]; specialize (IHl Hf); lia).
+    pose proof (Nat.mul_le_mono_r _ _ (S M) HB). lia.
+Qed.
+
+Fixpoint ity_depth (t : ity) : nat :=
+  match t with
+  | IBasic _ | IRef _ => 1
+  | IList e => S (ity_depth e)
+  | IMap k v => S (Nat.max (ity_depth k) (ity_depth v))
+  | ITuple ts => S (fold_right (fun t a => Nat.max (ity_depth t) a) 0 ts)
+  end.
+Definition scope_md (sc : scope) : nat :=
+  fold_right (fun e a => match snd e with
+                         | ScStruct _ ms => Nat.max (fold_right (fun m b => Nat.max (ity_depth (snd m)) b) 0 ms) a
+                         | ScItf => a end) 0 sc.
+
+Lemma sig_fuel_eq sc t : sig_fuel sc t = (S (List.length sc)) * (S (S (scope_md sc))) + ity_depth t + 1.
+Proof. reflexivity. Qed.
+
+Lemma ity_depth_of t : idl_safe t = true -> ity_depth (ity_of t) = idl_depth t.
+Proof.
+  induction t as [s|t IHt|k v IHk IHv|ts IH|n fs IH] using ty_ind2; intro Hs.
+  - destruct s; try discriminate; reflexivity.
+  - cbn [idl_safe ity_of ity_depth idl_depth] in *. now rewrite IHt.
+  - cbn [idl_safe ity_of ity_depth idl_depth] in *. apply andb_prop in Hs as [Hk Hv]. now rewrite IHk, IHv.
+  - assert (Ei : ity_of (TTuple ts) = ITuple (map ity_of ts)) by (destruct ts; [discriminate|reflexivity]).
+    assert (Hs' : forallb idl_safe ts = true) by (destruct ts; [discriminate|exact Hs]).
+    rewrite Ei. cbn [ity_depth idl_depth]. f_equal. clear Ei Hs.
+    induction ts as [|t ts IHl]; [reflexivity|]. inversion IH as [|? ? Ht IH']; subst. cbn [forallb] in Hs'. apply andb_prop in Hs' as [Ha Hb].
+    cbn [map fold_right]. rewrite IHl by assumption. f_equal. auto.
+  - reflexivity.
+Qed.
+
+Lemma scope_md_member sc k n ms m : In (k, ScStruct n ms) sc -> In m ms -> ity_depth (snd m) <= scope_md sc.
+Proof.
+  intros Hin Hm. induction sc as [|e sc IH]; [destruct Hin|]. cbn [scope_md fold_right]. fold (scope_md sc).
+  destruct Hin as [->|Hin].
+  - cbn [snd]. assert (ity_depth (snd m) <= fold_right (fun m b => Nat.max (ity_depth (snd m)) b) 0 ms).
+    { clear -Hm. induction ms as [|u ms IHl]; [destruct Hm|]. cbn. destruct Hm as [->|Hm]; [lia|]. specialize (IHl Hm). lia. }
+    lia.
+  - specialize (IH Hin). destruct (snd e); lia.
+Qed.
+
+Section Fuel.
+Variable E : env.
+Variable P : list tobject.
+Variable St : tset.
+Hypothesis HP : package_ok E P.
+Hypothesis HE : env_safe E.
+Hypothesis HS : set_ok E (map to_name P) St.
+Let sc := scope_of (decl_vals E P St) [].
+
+Lemma fields_shallow t : env_ok E t -> covers St t ->
+  Forall (fun d => Forall (fun p => idl_depth (snd p) <= scope_md sc) (snd d)) (structs_of t).
+Proof.
+  intros He Hc. apply Forall_forall. intros [n fs] Hd. cbn [snd]. apply Forall_forall. intros p Hp.
+  unfold env_ok in He. rewrite Forall_forall in He. pose proof (He _ Hd) as Hl. cbn in Hl.
+  pose proof (scope_struct E P St n fs HP HS Hl (Hc _ Hd)) as Hsc. fold sc in Hsc. apply lookup_in in Hsc.
+  assert (Hsafe : idl_safe (snd p) = true).
+  { unfold env_safe in HE. rewrite Forall_forall in HE. pose proof (HE (n, fs) (lookup_in _ _ _ Hl)) as H.
+    cbn [fst snd idl_safe] in H. apply andb_prop in H as [_ H]. rewrite forallb_forall in H.
+    specialize (H p Hp). now apply andb_prop in H. }
+  rewrite <- (ity_depth_of (snd p) Hsafe).
+  apply (scope_md_member sc n n (ifields fs) (fst p, ity_of (snd p))); [assumption|].
+  unfold ifields. apply in_map_iff. exists p. auto.
+Qed.
+
+Lemma names_in_scope t : env_ok E t -> covers St t -> incl (snames t) (map fst sc).
+Proof.
+  intros He Hc x Hx. unfold snames in Hx. apply in_map_iff in Hx as ([n fs] & <- & Hd). cbn [fst].
+  unfold env_ok in He. rewrite Forall_forall in He. pose proof (He _ Hd) as Hl. cbn in Hl.
+  pose proof (scope_struct E P St n fs HP HS Hl (Hc _ Hd)) as Hsc. fold sc in Hsc.
+  destruct (in_dec string_dec n (map fst sc)) as [Hin|Hn]; [assumption|].
+  apply lookup_none_notin in Hn. congruence.
+Qed.
+
+Lemma depth_below_fuel t i : env_ok E t -> covers St t -> idl_depth t <= ity_depth i -> ty_depth t < sig_fuel sc i.
+Proof.
+  intros He Hc Hi. rewrite sig_fuel_eq.
+  pose proof (ty_depth_bound (scope_md sc) t (fields_shallow t He Hc)) as H1.
+  pose proof (sdepth_names E t He) as H2.
+  assert (H3 : List.length (nodup string_dec (snames t)) <= List.length sc).
+  { rewrite <- (map_length fst sc). apply NoDup_incl_length; [apply NoDup_nodup|].
+    intros x Hx. apply nodup_In in Hx. now apply (names_in_scope t He Hc). }
+  assert (sdepth t * S (scope_md sc) <= List.length sc * S (scope_md sc)) by (apply Nat.mul_le_mono_r; lia).
+  lia.
+Qed.
+End Fuel.
